@@ -361,7 +361,7 @@ func ruleR08e(h *H) {
 	for _, s := range h.P.AllCalls(ir.InPkg("server"), qatWaitAsync) {
 		h.Fn(ir.FuncName(s.Fn))
 		cb := argOf(s.Call.Common(), 2)
-		c, ok := ir.Canon(cb).(*ssa.Call)
+		c, ok := ir.Canon(throughFactory(cb)).(*ssa.Call)
 		isOnce := ok && h.P.Matches(c.Common(), newOnce)
 		h.Verdict(isOnce, rule, "WaitForCommitOffsetAsync callback in "+ir.FuncName(s.Fn), h.pos(s.Call), "concurrent.NewOnce(...)", "the commit callback is not a complete-once wrapper: it can be completed both by the commit and by Close")
 	}
